@@ -1,6 +1,6 @@
 (* EXTRACT-Z: c19 run_c19 *)
 (* Executable entry point of the C19 mesh-reader correspondence: token view -> outcome. *)
-From OM Require Import Base.Lists Base.Wire Maths.BinCodec Geom.MeshCount Geom.ReaderCounts Geom.GeomFile Geom.GeomLex.
+From OM Require Import Base.Lists Base.Wire Maths.BinCodec Geom.MeshCount Geom.ReaderCounts Geom.GeomFile Geom.GeomLex Geom.CondSensors.
 Local Open Scope Z_scope.
 
 Definition getTok : dec mtok :=
@@ -29,6 +29,15 @@ Definition run_c19 (w : wire) : wire :=
   | 5 :: w' => run_dec (do n <- getN; getNs n) w' (fun t => match lex_geom t with
         | Some x => [0; zn (length (lx_paths x)); zn (length (lx_ifaces x)); zn (length (lx_domains x))] | None => [1] end)
   | 6 :: w' => run_dec (do n <- getN; getNs n) w' (fun t => match lex_cond t with Some l => [0; zn (length l)] | None => [1] end)
+  | 7 :: w' => run_dec (do n <- getN; do t <- getNs n; do nd <- getN; do ds <- getZs nd;
+                        do nl <- getN; do st <- getMany nl (do k <- getN; getMany k
+                           (do a <- getZ; do h <- getZ; do m <- getZ; do r <- getZ; do rh <- getZ;
+                            ret {| c_name := a; c_hash := negb (h =? 0); c_num := m; c_rest := r; c_rest_hash := negb (rh =? 0) |}));
+                        ret (t, ds, st)) w'
+                 (fun '(t, ds, st) => [if load_cond_strict (match lex_cond t with Some _ => true | None => false end) st ds then 0 else 1])
+  | 8 :: w' => run_dec (do nl <- getN; getMany nl (do e <- getZ; do k <- getN; do d <- getZ; do a <- getZ;
+                           ret {| s_empty := negb (e =? 0); s_ntok := k; s_dot := negb (d =? 0); s_name := a |})) w'
+                 (fun ls => match sensors_load ls with SOk n k c => [0; zn n; zn k; zn c] | SErr => [1] | SUnmodelled => [99] end)
   | 3 :: w' => run_dec getRstream w' (fun s => outMesh (read_bnd s))
   | 4 :: w' => run_dec (do n <- getN; getZs n) w' (fun bs => outMeshF (read_mesh bs))
   | _ => [-1]
